@@ -6,6 +6,7 @@ import (
 	"os/exec"
 	"path/filepath"
 	"strings"
+	"time"
 )
 
 // CLIResult is the outcome of one run of the real git-bug binary.
@@ -31,7 +32,20 @@ func RunCLI(dir string, args ...string) CLIResult {
 	cmd.Stdout, cmd.Stderr = &buf, &buf
 	cmd.Stdin = strings.NewReader("")
 	cmd.Env = append(os.Environ(), "GIT_CONFIG_NOSYSTEM=1", "NO_COLOR=1", "TERM=dumb")
-	err := cmd.Run()
+	// a command blocked for a minute (e.g. on a file lock held by another process) is killed: outcome "timeout"
+	if err := cmd.Start(); err != nil {
+		return CLIResult{Out: err.Error(), Code: -1}
+	}
+	done := make(chan error, 1)
+	go func() { done <- cmd.Wait() }()
+	var err error
+	select {
+	case err = <-done:
+	case <-time.After(60 * time.Second):
+		_ = cmd.Process.Kill()
+		<-done
+		return CLIResult{Out: buf.String() + "\nHARNESS: command killed after 60s without terminating", Code: -2}
+	}
 	res := CLIResult{Out: buf.String()}
 	if err != nil {
 		if ee, ok := err.(*exec.ExitError); ok {
